@@ -1225,6 +1225,29 @@ pub(crate) fn verify_mmr_proof<'a, T: Iterator<Item = &'a HeaderView>>(
             }
         }
     };
+    // Merging two digests adds up their total difficulties and compares `end_number + 1` with
+    // the next start number; every digest is merged at most once, so checking the sum of all
+    // of them and their end numbers is enough to make sure that no merge could overflow.
+    {
+        let mut sum = U256::zero();
+        let proof_digests = raw_proof.iter().map(|digest| digest.to_entity());
+        let header_digests = digests_with_positions.iter().map(|(_, digest)| digest.clone());
+        for digest in proof_digests.chain(header_digests) {
+            let digest_end_number: BlockNumber = digest.end_number().unpack();
+            let digest_total_difficulty: U256 = digest.total_difficulty().unpack();
+            sum = match sum.checked_add(&digest_total_difficulty) {
+                Some(sum) if digest_end_number <= end_number => sum,
+                _ => {
+                    let errmsg = format!(
+                        "failed to verify the proof since a digest (end at {}, total difficulty \
+                        {:#x}) is out of the range of the chain root",
+                        digest_end_number, digest_total_difficulty
+                    );
+                    return Err(StatusCode::InvalidProof.with_context(errmsg));
+                }
+            };
+        }
+    }
     let verify_result = match proof.verify(parent_chain_root, digests_with_positions) {
         Ok(verify_result) => verify_result,
         Err(err) => {
